@@ -683,6 +683,7 @@ Qed.
 (* remove(bucket): the post-state *)
 Definition remove_post (r : rt) (in_main : bool) (k : N) (r' : rt) : Prop :=
   Inv R ES r' /\ rt_abs r' = delete k (rt_abs r) /\ hB (main r') = hB (main r) /\
+  (forall k', k' <> k -> rt_find_pure r' k' = rt_find_pure r k') /\
   if in_main then lo r' = lo r /\ hn (main r') + 1 = hn (main r) /\
                   hgl (main r) <= hgl (main r') /\ hgl (main r') <= hgl (main r) + 1
   else main r' = main r /\
@@ -725,7 +726,9 @@ Proof.
       destruct Ho as (Hit & Hc & Hnd & Hdis & Hneed).
       split; [exact Hit|]. split; [exact Hc|]. split; [exact Hnd|]. split; [|lia].
       intros x Hx. rewrite Hel'. rewrite lookup_delete_ne by (apply not_eq_sym; eapply Hno; eauto). apply Hdis. exact Hx. }
-    split; [apply abs_delete_main; assumption|]. repeat split; assumption.
+    split; [apply abs_delete_main; assumption|]. split; [exact HB'|].
+    split. { intros k' Hk'. unfold rt_find_pure. cbn [main lo]. rewrite Hel', lookup_delete_ne by congruence. reflexivity. }
+    repeat split; assumption.
   - apply rt_find_old in Hf as (Hnone & o & Hlo & Hl). wp_steps. rewrite Hlo.
     rewrite Hlo in Ho. destruct (old_ok_remove _ _ _ _ Ho Hl HR) as [Ho' Hpos].
     pose proof Ho as (Hit & Hc & Hnd & Hdis & Hneed).
@@ -741,16 +744,23 @@ Proof.
       split.
       { destruct o as [B l i n]. cbn [oB orem oit ocnt] in *.
         rewrite <- (abs_delete_old t B l i n 0 0 k Hnd Hnone). rewrite Hnil. reflexivity. }
+      split; [reflexivity|].
+      split. { intros k' Hk'. unfold rt_find_pure. cbn [main lo]. destruct (hel t !! k'); [reflexivity|].
+               rewrite <- (lookup_list_remove_ne k (orem o) k') by exact Hk'. rewrite Hnil. reflexivity. }
       repeat split; lia.
     + wp_steps. apply HQ. rewrite Hs1. unfold remove_post. cbn [main lo ocnt oB oit].
       split; [split; [exact HR|split; [exact Hok|exact Ho']]|].
-      split; [destruct o as [B l i n]; apply abs_delete_old; assumption|]. repeat split; lia.
+      split; [destruct o as [B l i n]; apply abs_delete_old; assumption|]. split; [reflexivity|].
+      split. { intros k' Hk'. unfold rt_find_pure. cbn [main lo orem]. destruct (hel t !! k'); [reflexivity|].
+               f_equal. apply lookup_list_remove_ne. exact Hk'. }
+      repeat split; lia.
 Qed.
 
 
 (* erase(bucket): like remove, but the element is dropped and an emptied old table stays *)
 Definition erase_post (r : rt) (in_main : bool) (k : N) (r' : rt) : Prop :=
   Inv R ES r' /\ rt_abs r' = delete k (rt_abs r) /\ hB (main r') = hB (main r) /\
+  (forall k', k' <> k -> rt_find_pure r' k' = rt_find_pure r k') /\
   if in_main then lo r' = lo r /\ hn (main r') + 1 = hn (main r) /\
                   hgl (main r) <= hgl (main r') /\ hgl (main r') <= hgl (main r) + 1
   else main r' = main r /\
@@ -777,7 +787,9 @@ Proof.
       destruct Ho as (Hit & Hc & Hnd & Hdis & Hneed).
       split; [exact Hit|]. split; [exact Hc|]. split; [exact Hnd|]. split; [|lia].
       intros x Hx. rewrite Hel'. rewrite lookup_delete_ne by (apply not_eq_sym; eapply Hno; eauto). apply Hdis. exact Hx. }
-    split; [apply abs_delete_main; assumption|]. repeat split; assumption.
+    split; [apply abs_delete_main; assumption|]. split; [exact HB'|].
+    split. { intros k' Hk'. unfold rt_find_pure. cbn [main lo]. rewrite Hel', lookup_delete_ne by congruence. reflexivity. }
+    repeat split; assumption.
   - apply rt_find_old in Hf as (Hnone & o & Hlo & Hl). wp_steps. rewrite Hlo.
     rewrite Hlo in Ho. destruct (old_ok_remove _ _ _ _ Ho Hl HR) as [Ho' Hpos].
     pose proof Ho as (Hit & Hc & Hnd & Hdis & Hneed).
@@ -787,7 +799,10 @@ Proof.
     destruct (s_rt s) as [t lo0] eqn:Ert. cbn [main lo] in *. subst lo0.
     split; [split; [exact HR|split; [exact Hok|exact Ho']]|].
     split; [destruct o as [B l i n]; apply abs_delete_old; assumption|].
-    split; [reflexivity|]. split; [reflexivity|]. split; [lia|]. split; reflexivity.
+    split; [reflexivity|].
+    split. { intros k' Hk'. unfold rt_find_pure. cbn [main lo orem]. destruct (hel t !! k'); [reflexivity|].
+             f_equal. apply lookup_list_remove_ne. exact Hk'. }
+    split; [reflexivity|]. split; [lia|]. split; reflexivity.
 Qed.
 
 (* clear() *)
